@@ -63,7 +63,6 @@ CHECKS.append({
     "technique": "Coq proof (pigeonhole termination, freshness invariant over the scope fold) + regenerated reserved lists + model/implementation correspondence + emitted-text probes",
 })
 
-_claimed = {c["property_id"] for c in CHECKS}
 CHECKS.append({
     "property_id": "C09",
     "text": "Coq model of format_subexpression (precedence, associativity, sides, the prefix-operator separation rule, parenthesised integer literals before a member access) and of the expression parser's level structure (expr_leaf, expr_p1 .. expr_p15, casts decided by the set of type names as the type checker decides them). Precedences, associativity ranges, operator spellings, the side each operand is printed on, the operators each parser level accepts and the level chain are regenerated from formatter.rs / expressions.rs / lexer.rs on every run and must satisfy the table obligations (printed spelling = parsed token text for every operator, level chain, parenthesis rule). The model's printed text and the tree it reads back are compared with the real printer and the real preprocessor + parser on every (outer operator, inner operator, side) combination, sampled or exhaustive operator triples, literals of every kind at extreme values and random trees to depth 6; every repository shader source and every tree the HLSL exporters build for them is printed, parsed again and compared node by node after resolving the parser's ambiguity nodes.",
@@ -72,6 +71,15 @@ CHECKS.append({
     "technique": "Coq proof over a printer/parser model + regenerated tables + model/implementation correspondence",
 })
 
+CHECKS.append({
+    "property_id": "C12",
+    "text": "Coq model of Macro::parse, split_macro_args, find_single_macro, apply_single_macro / apply_macros_internal (positions, early_function_pos, last_macro_function_index, the disabled set) and of the file-level driver (#define, #undef, #include, #pragma once, initial defines). Theorems: for every paste function, macro table (self- and mutually-recursive definitions included) and token list, expansion ends with the expanded list or a diagnostic within S(#macros) nested rescans and S(#tokens) steps per list, never reaches the scan's `continue` that skips its increment, and leaves no unprocessed ## of a replacement list; #include of a file equals running its items in place, a #pragma once file is marked by its first run and contributes nothing afterwards, and defines passed to the compiler equal #define lines before the first line. Two defects were repaired (arguments were expanded with a fresh disabled set: `#define f(x) x`/`#define a f(a)`/`a` never terminated; initial defines were hand-built macros: no ## operator, no trimming, first-wins duplicates, and an abort when a ## touched one). The model's token output is compared with the preprocessor on random macro programs within the property's bounds (<= 6 definitions, 0-3 parameters, bodies <= 8 tokens, nested invocations, redefinition, #undef, include graphs <= 5 files with and without #pragma once, initial defines), and the preprocessor's output is judged against the C algorithm with hide sets (tools/c12ref.py), against the same program with every #include pasted, and against the same program with the initial defines written as #define lines.",
+    "design_ref": "DESIGN.md §4 C12",
+    "note": "Partial: equality with C's substitution is decided on the implementation's output by the reference expander (oracle), not proved in Coq; the Coq theorems are termination / no-hang / no leftover ## and the driver equalities. Trusted: Coq kernel, extraction + drivers, tools/c12ref.py as the statement of C's expansion, the lexer model of C10 as the paste function of the executable model. Known findings: a ## with an empty operand; a self-referential macro name that survived in an argument is expanded on the next rescan.",
+    "technique": "Coq proof (well-founded measure on the disabled set and the unprocessed suffix; induction over include fuel) + model/implementation correspondence + reference-expander oracle",
+})
+
+_claimed = {c["property_id"] for c in CHECKS}
 NOT_APPLICABLE = [
     {"property_id": p, "reason": "not yet claimed: model/theorems under construction (see DESIGN.md build order); no check registered until it passes on the unchanged tree"}
     for p in ALL if p not in _claimed
